@@ -137,6 +137,25 @@ def runner(rep, tier, seed, replay):
     # (B) validate the recorded loop events against the specification
     ok, bad = tracecheck.validate_cmdlist(trace_batch, rep)
     ntraces += ok
+    # ---- a background child that ends while a later foreground pipeline of the list is still running must not disturb the
+    # list: the pipeline's own status decides && / ||, $? and the exit status (the wait must not be cut short by foreign children)
+    bgp = []
+    for stq, op, want_ids, want_status in ((5, "&&", ["3"], 0), (0, "&&", ["2", "3"], 0), (5, "||", ["2", "3"], 0), (0, "||", ["3"], 0)):
+        line = "vst bg mode=none,linger=120 & ; vst s1 mode=none,linger=450,exit=%d %s vmk 2 0 $? ; vmk 3 0 $?" % (stq, op)
+        for ent in ("c", "script"):
+            bgp.append((line, ent, want_ids, stq))
+    bres = run_cases([{"entry": e, "text": ln + ("\n" if e == "script" else ""), "want_files": False, "timeout": 20, "linger": 1.0} for ln, e, _, _ in bgp])
+    for (ln, e, want_ids, stq), res in zip(bgp, bres):
+        rep.cov["evaluations"] += 1
+        mk = [(r.get("id"), r.get("argv")) for r in res.get("log", []) if r.get("h") == "mk"]
+        seen = [m[1][-1] if m[1] else None for m in mk]
+        okids = [m[0] for m in mk] == want_ids
+        first_seen = seen[0] if seen else None
+        if not okids or (first_seen is not None and first_seen != (str(stq) if mk[0][0] == "2" or len(want_ids) == 1 else first_seen)):
+            rep.violation("background-child/" + e, "`%s`: markers %s, expected ids %s (the foreground stage exits %d after a background child has ended)"
+                          % (ln, mk, want_ids, stq), {"entry": e, "text": ln, "program": {"sts": [], "ops": []}, "expected_markers": want_ids,
+                                                     "expected_status": 0, "got_markers": mk, "got_status": res.get("status")},
+                          {"entry": e, "kind": "background-child", "n": 3})
     # ---- the splitter itself: spec/Splitter.tla is line_to_cmds (and trim_cmd) transcribed statement by statement; every string
     # over an 11-symbol alphabet up to length 4 (thorough 5) must be split by the real code exactly as by the transcription
     # (conformance: drift is reported, not alarmed); TLC checks that on plain lines (balanced quotes, no backslash / comment /
